@@ -504,6 +504,50 @@ func checkC18(c *core.Ctx) {
 		traces = append(traces, &Trace{Events: s.events, Class: "restart-then-late-joiners", Name: fmt.Sprintf("rejoin#%d", i),
 			Scenario: map[string]any{"nodes": names, "seeds": names[:1], "restarted": "n2", "first_messages_of_the_rejoined_node": []string{"lost towards the seed", "all lost", "in flight"}[i%3], "seed": c.Seed*131 + int64(i)}})
 	}
+	// directed: a node restarts (same NodeID), the first join attempt of the new process does not get through, and before
+	// the retry fires gossip reaches it that still lists its previous incarnation (another node joins meanwhile)
+	for i := 0; i < core.Pick(c, 9, 45); i++ {
+		rng := rand.New(rand.NewSource(c.Seed*173 + int64(i)))
+		nn := 4 + i%3
+		var names []string
+		for k := 1; k <= nn; k++ {
+			names = append(names, fmt.Sprintf("n%d", k))
+		}
+		s := newGsim(names, names[:1], true)
+		s.launch("n1")
+		for _, n := range []string{"n2", "n3"} {
+			s.launch(n)
+			s.join(n, "n1")
+		}
+		for r := 0; r < 2; r++ {
+			s.round(rng.Intn)
+		}
+		s.crash("n2")
+		s.launch("n2") // joining: the first attempt has failed, the retry is pending
+		if i%3 == 1 {
+			s.cut[pairKey("n2", "n1")] = true // the seed stays unreachable from n2 for a while
+		}
+		for k := 4; k <= nn; k++ { // news for everybody, also for n2's address
+			s.launch(names[k-1])
+			s.join(names[k-1], "n1")
+			for _, o := range names {
+				if o != "n2" {
+					for s.deliver(o, "n2") {
+					}
+				}
+			}
+			if rng.Intn(2) == 0 {
+				s.round(rng.Intn)
+			}
+		}
+		delete(s.cut, pairKey("n2", "n1"))
+		s.join("n2", "n1")
+		s.finish(rng)
+		c.Add("evaluations", 1)
+		classes["restart-first-join-fails"]++
+		traces = append(traces, &Trace{Events: s.events, Class: "restart-first-join-fails", Name: fmt.Sprintf("rejoin-late#%d", i),
+			Scenario: map[string]any{"nodes": names, "seeds": names[:1], "restarted": "n2", "seed": c.Seed*173 + int64(i)}})
+	}
 	// directed: islands.  (a) two seeds that cannot talk to each other at first, each takes joiners; (b) two self-seeded
 	// nodes (each its own only seed) with joiners, and a node whose seed list names both.  Then the partition heals.
 	for i := 0; i < core.Pick(c, 12, 60); i++ {
